@@ -119,7 +119,7 @@ def load_known():
     return json.load(open(p)).get('findings', [])
 
 # ------------------------------------------------------------------ check
-def check(prop, tier='quick', seed=0):
+def check(prop, tier='quick', seed=0, only=None):
     t0 = time.time()
     sys.path.insert(0, VERIF)
     hname = prop.lower()
@@ -127,6 +127,7 @@ def check(prop, tier='quick', seed=0):
     snap = W.take_snapshot()
     opts = {'xcheck': True, 'tier': tier, 'seed': seed}
     cases = h.cases(tier)
+    if only: cases = [c for c in cases if only in repr(c)]
     budget = getattr(h, 'BUDGET_S', {}).get(tier, 1500)
     results = explore(hname, cases, opts, deadline=time.time() + budget)
     # extra (non path-based) obligations: lemmas discharged once
@@ -212,6 +213,12 @@ def summarize(prop, h, tier, seed, cases, results, lemma_obs, wall):
     # ---- verdict
     print(f'[{prop}] tier={tier} cases={len(cases)} paths={ev["coverage"]["paths_explored"]} obligations={len(mine)} discharged={len(discharged)} '
           f'refuted={len(refuted)} undecided={len(undecided)} outside={len(outside)} xcheck={ev["coverage"]["cpython_crosscheck"]} wall={wall:.1f}s')
+    if os.environ.get('PYVC_PROFILE'):
+        agg = {}
+        for r in results:
+            if r.get('case', -1) >= 0:
+                a = agg.setdefault(r['case'], [0, 0.0]); a[0] += 1; a[1] += r.get('t', 0)
+        for ci, (n, t) in sorted(agg.items(), key=lambda kv: -kv[1][1])[:25]: print(f'  PROFILE case {cases[ci]!r}: paths={n} cpu={t:.1f}s')
     for l in known_lines: print(l)
     code = 0
     if crashes or xdiv or xerr or canary_bad:
@@ -220,6 +227,10 @@ def summarize(prop, h, tier, seed, cases, results, lemma_obs, wall):
         for x in xdiv[:5]: print('CHECKER-FAULT cpython cross-check diverged:', json.dumps(x, default=str)[:600])
         for x in xerr[:3]: print('CHECKER-FAULT cross-check error:', x.get('why'))
         for o in canary_bad[:3]: print('CHECKER-FAULT canary not refuted:', o['name'], o['status'])
+    if outside and (violations or code):
+        seen_notes = {}
+        for r in outside: seen_notes.setdefault((r['outcome'], (r['note'] or '')[:120]), _case_repr(cases, r['case']))
+        for (oc, note), cr in list(seen_notes.items())[:8]: print(f'  note: {len([1 for r in outside if (r["note"] or "")[:120] == note])} path(s) {oc}: {note}  e.g. case {cr}')
     if violations:
         code = 1 if code == 0 else code
         for name, fn, conf, wit in violations:
